@@ -368,6 +368,7 @@ func c12SpacesOf(thorough bool) []*c12Space {
 		return []*c12Space{
 			{part: "macro-sequences", paths: all, maxPkts: c12RealMaxPkts, depth: 6, drawsTo: 4, rootLen: 2},
 			{part: "small-max-window", paths: []int{1, 2}, maxPkts: 100, depth: 4, drawsTo: 3, rootLen: 1},
+			{part: "long-rtt", paths: []int{4}, maxPkts: c12RealMaxPkts, depth: 5, drawsTo: 3, rootLen: 1},
 			{part: "tiny-bdp", paths: []int{-2}, maxPkts: c12RealMaxPkts, depth: 4, drawsTo: 3, rootLen: 1},
 			{part: "long-fat-real-max-window", paths: []int{-1}, maxPkts: c12RealMaxPkts, prefix: []int{c12EvClean12}, depth: 1, drawsTo: 1, rootLen: 0},
 		}
@@ -375,6 +376,7 @@ func c12SpacesOf(thorough bool) []*c12Space {
 	return []*c12Space{
 		{part: "macro-sequences", paths: all, maxPkts: c12RealMaxPkts, depth: 5, drawsTo: 3, rootLen: 2},
 		{part: "small-max-window", paths: []int{1, 2}, maxPkts: 100, depth: 3, drawsTo: 2, rootLen: 1},
+		{part: "long-rtt", paths: []int{4}, maxPkts: c12RealMaxPkts, depth: 3, drawsTo: 2, rootLen: 1},
 		{part: "tiny-bdp", paths: []int{-2}, maxPkts: c12RealMaxPkts, depth: 3, drawsTo: 2, rootLen: 1},
 		{part: "long-fat-real-max-window", paths: []int{-1}, maxPkts: c12RealMaxPkts, prefix: []int{c12EvClean12}, depth: 1, drawsTo: 0, rootLen: 0},
 	}
